@@ -88,6 +88,7 @@ class BaseDevice:
         """Handle one received line (without the newline)."""
         self.idle_since = None
         self.rx_raw.append(raw)
+        self.log("rx-raw", raw)
         line = raw
         m0 = NUMBERED.match(raw)
         if m0:
